@@ -59,6 +59,7 @@ func (vector *Vector) ScalarMul(a Vector, b *{{.ElementName}}) {
 	var bb  [2]{{.ElementName}}
 	bb[0] = *b
 	bb[1] = *b
+	b = &bb[0] // b may point into vector: the tail below must not re-read it
 	const blockSize = 16
 	scalarMulVec(&(*vector)[0], &a[0], &bb[0], n/blockSize, qInvNeg)
 	if n % blockSize != 0 {
@@ -350,6 +351,11 @@ func (vector *Vector) Sub(a, b Vector) {
 // ScalarMul multiplies a vector by a scalar element-wise and stores the result in self.
 // It panics if the vectors don't have the same length.
 func (vector *Vector) ScalarMul(a Vector, b *{{.ElementName}}) {
+	if len(a) > 0 {
+		// b may point into vector: read it once
+		scalar := *b
+		b = &scalar
+	}
 	if !cpu.SupportAVX512 {
 		// call scalarMulVecGeneric
 		scalarMulVecGeneric(*vector, a, b)
